@@ -1054,7 +1054,9 @@ func (bc *BlockChain) HasBlock(hash common.Hash, number uint64) bool {
 	if bc.blockCache.Contains(hash) {
 		return true
 	}
-	return rawdb.HasBody(bc.db, hash, number)
+	// WriteBlock stores body and header with separate writes: the block is only
+	// there when both are (a crash in between leaves a body without a header)
+	return rawdb.HasBody(bc.db, hash, number) && rawdb.HasHeader(bc.db, hash, number)
 }
 
 // HasState checks if state trie is fully present in the database or not.
